@@ -855,7 +855,19 @@ fn check_jwk(input: &JwkInput, class: JwkClass, obs: &mut Obs) -> CheckResult {
         let jwk = encoded.clone().unwrap_or(Value::Null);
         check_jwk_document(doc, &did_string, &jwk, via, obs)?;
       }
-      (JwkClass::Public, Err(e)) => vfail!(obs, "jwk-public-key-rejected", "{via}: {did_string} encodes a public JWK but fails: {e}"),
+      (JwkClass::Public, Err(e)) => {
+        // "generated public JWKs" are the ones the library itself reads as public keys: a JWK text its own `Jwk`
+        // type refuses (stricter validation of key material or of member combinations) is not one
+        let library_reads_it = encoded
+          .clone()
+          .and_then(|j| identity_verification::jwk::Jwk::from_json_value(j).ok())
+          .is_some_and(|k| k.is_public());
+        if library_reads_it {
+          vfail!(obs, "jwk-public-key-rejected", "{via}: {did_string} encodes a public JWK but fails: {e}")
+        } else {
+          obs.label("jwk:public-shaped-json-not-a-library-jwk")
+        }
+      }
       (JwkClass::Undecodable, Ok(doc)) => vfail!(obs, "jwk-undecodable-resolved", "{via}: nothing decodable in {did_string} but got {doc}"),
       (JwkClass::Undecodable, Err(_)) => obs.label("jwk:undecodable-rejected"),
       (JwkClass::Private, Ok(_)) => obs.label("jwk:private-accepted"),
